@@ -81,7 +81,7 @@ pub fn meta_event<R: Read + Seek>(r: &Mp4Reader<R>) -> Value {
 
 /// open `bytes` (against `init` when given); Err carries the event describing the failure
 pub fn open_reader(bytes: &[u8], init: Option<&[u8]>) -> std::result::Result<Mp4Reader<Sparse>, Value> {
-    open_reader_total(bytes, init, bytes.len() as u64, None)
+    open_reader_total(bytes, init, bytes.len() as u64, None, 0)
 }
 /// `parent_calls`: calls made on the reader of `init` BEFORE the segment reader is derived from it
 /// (their results are not recorded: the derived reader's answers must not depend on them)
@@ -90,6 +90,7 @@ pub fn open_reader_total(
     init: Option<&[u8]>,
     total: u64,
     parent_calls: Option<&Vec<Value>>,
+    seg_pos: u64,
 ) -> std::result::Result<Mp4Reader<Sparse>, Value> {
     let fail = |r: std::result::Result<Error, String>| match r {
         Ok(e) => json!({"e":"open","res":err_class(&e),"msg":e.to_string(),"tracks":[]}),
@@ -116,7 +117,12 @@ pub fn open_reader_total(
                     _ => guarded(|| base.sample_count(t).map(|_| ())),
                 };
             }
-            match guarded(|| base.read_fragment_header(Sparse::from_vec(bytes.to_vec()), bytes.len() as u64)) {
+            // the segment may start at a position other than 0 of its stream (filler before it)
+            let mut seg = vec![0xEEu8; seg_pos as usize];
+            seg.extend_from_slice(bytes);
+            let mut st = Sparse::from_vec(seg);
+            st.pos = seg_pos;
+            match guarded(|| base.read_fragment_header(st, seg_pos + bytes.len() as u64)) {
                 Ok(Ok(r)) => Ok(r),
                 Ok(Err(e)) => Err(fail(Ok(e))),
                 Err(p) => Err(fail(Err(p))),
@@ -133,10 +139,16 @@ pub fn run_case(case: &Value, out: &mut Out) {
     let init: Option<Vec<u8>> = if case["init"].is_array() { Some(from_bytes(&case["init"])) } else { None };
     // "total": the file is longer than the bytes given (header-only rendering of a huge movie)
     let total = if case["total"].is_array() { from_big(&case["total"]) } else { bytes.len() as u64 };
-    out.ev(json!({"e":"file","img":img_sparse(&bytes, total),"has_init":init.is_some(),
+    let seg_pos = if case["seg_pos"].is_array() && init.is_some() { from_big(&case["seg_pos"]) } else { 0 };
+    let img = if seg_pos > 0 {
+        json!({"start": big(seg_pos), "len": big(seg_pos + bytes.len() as u64), "segs": [{"off": big(seg_pos), "bytes": bytes_val(&bytes)}]})
+    } else {
+        img_sparse(&bytes, total)
+    };
+    out.ev(json!({"e":"file","img":img,"has_init":init.is_some(),
         "init": init.as_ref().map(|b| img_of(b)).unwrap_or(json!({})),
         "expect_ok": case["expect_ok"].as_bool().unwrap_or(false)}));
-    let mut reader = match open_reader_total(&bytes, init.as_deref(), total, case["parent_calls"].as_array()) {
+    let mut reader = match open_reader_total(&bytes, init.as_deref(), total, case["parent_calls"].as_array(), seg_pos) {
         Ok(r) => r,
         Err(ev) => {
             out.ev(ev);
